@@ -22,7 +22,7 @@ Proof. apply fields_nodup_of_check. vm_compute. reflexivity. Qed.
 
 Lemma gen_zero_stable : forall n fts, assoc n gen_env = Some fts ->
   zero gen_env gen_zfuel (TNamed n) = VStruct n (map (fun kt => zero gen_env gen_zfuel (snd kt)) fts).
-Proof. apply zero_stable_of_forall. repeat constructor. Qed.
+Proof. apply zero_stable_of_forall. repeat (apply Forall_cons; [vm_compute; reflexivity|]). apply Forall_nil. Qed.
 
 (* every op constant has a name and the names are pairwise different: all 0..n-1 ops can be printed *)
 Lemma gen_all_ops_named : forallb (fun c => match nassoc (snd c) gen_op_names with Some _ => true | None => false end) gen_op_consts = true.
